@@ -179,9 +179,22 @@ func (h *RealtimeHandler) HandleParticipantJoin(ctx context.Context, handleFrame
 		h.leaveSession()
 	}
 
-	if !ok {
+	created := !ok
+	if created {
 		session = models.NewSession(h.Sessions.NewID(), h.FrameDuration)
 		session.AppKey = h.appKey
+	}
+
+	participant := &models.Participant{
+		ID:            session.NewParticipantID(),
+		Responder:     respond,
+		SignedLatency: &models.SignedLatency{},
+	}
+
+	if created {
+		// The creator is a member of the new session before anyone else can
+		// find it, so the session is never seen empty.
+		session.AddParticipant(participant)
 		if err := h.Sessions.Add(ctx, session); err != nil {
 			respond.Send(&hagallpb.ErrorResponse{
 				Type:      hagallpb.MsgType_MSG_TYPE_ERROR_RESPONSE,
@@ -192,15 +205,17 @@ func (h *RealtimeHandler) HandleParticipantJoin(ctx context.Context, handleFrame
 			return nil
 		}
 		go session.StartDispatchFrames()
+	} else if !h.Sessions.AddParticipant(session, participant) {
+		// The session ended between its lookup and now (its last participant
+		// left): joining it would leave the requester in a dead session.
+		respond.Send(&hagallpb.ErrorResponse{
+			Type:      hagallpb.MsgType_MSG_TYPE_ERROR_RESPONSE,
+			Timestamp: timestamppb.Now(),
+			RequestId: req.RequestId,
+			Code:      hagallpb.ErrorCode_ERROR_CODE_NOT_FOUND,
+		})
+		return nil
 	}
-
-	participant := &models.Participant{
-		ID:            session.NewParticipantID(),
-		Responder:     respond,
-		SignedLatency: &models.SignedLatency{},
-	}
-
-	session.AddParticipant(participant)
 	h.stopFrameHandling = session.HandleFrame(handleFrame)
 
 	respond.Send(&hagallpb.ParticipantJoinResponse{
@@ -1032,12 +1047,9 @@ func (h *RealtimeHandler) leaveSession() {
 		})
 	})
 
-	if session.ParticipantCount() == 0 {
-		// Here we use a context.Background to ensure the session to be deleted
-		// on the session discovery service (eg HDS).
-		h.Sessions.Remove(context.Background(), session)
-		session.Close()
-	}
+	// Here we use a context.Background to ensure the session to be deleted
+	// on the session discovery service (eg HDS).
+	h.Sessions.RemoveIfEmpty(context.Background(), session)
 
 	h.currentParticipant = nil
 	h.currentSession = nil
